@@ -734,6 +734,43 @@ theorem reused_object_fixed_ok {S H : Type} (o : SnowObj S H) (r : RunOut S H) (
     (o.runFixed r).results = .ok r.stats ∧ (o.runFixed r).history = .ok r.hist := by
   simp [SnowObj.runFixed, SnowObj.results, SnowObj.history, hr]
 
+/-! ### sequential multi-repetition studies (finding K7) -/
+
+/-- **K7, state machine**: on the code with the K6 repair only, a study whose first repetition
+completes (publishing histories `h`) and whose second repetition raises leaves `results` refusing
+but the history accessors returning `h` – data of a study that did not complete. -/
+theorem study_partial_counterexample {S H : Type} (o : SnowObj (List S) H) (r0 r1 : RunOut S H)
+    (rest : List (RunOut S H)) (h : H) (e : String)
+    (h0 : r0.exc = none) (hh0 : r0.hist = some h) (h1 : r1.exc = some e) (hh1 : r1.hist = none) :
+    (o.runStudyK6 (r0 :: r1 :: rest)).results = .error "AssertionError" ∧
+      (o.runStudyK6 (r0 :: r1 :: rest)).history = .ok (some h) := by
+  simp [SnowObj.runStudyK6, SnowObj.results, SnowObj.history, studyExc, studyHist, executed, h0, h1, hh0, hh1]
+
+/-- **K7 repaired**: whatever the repetitions, after a study that raised every accessor raises … -/
+theorem study_fixed_raises {S H : Type} (o : SnowObj (List S) H) (reps : List (RunOut S H)) (e : String)
+    (he : studyExc reps = some e) :
+    (o.runStudyFixed reps).results = .error "AssertionError" ∧
+      (o.runStudyFixed reps).history = .error "AssertionError" := by
+  simp [SnowObj.runStudyFixed, SnowObj.results, SnowObj.history, he]
+
+/-- … and a study that completed shows its whole table and the histories of its last repetition -/
+theorem study_fixed_ok {S H : Type} (o : SnowObj (List S) H) (reps : List (RunOut S H))
+    (he : studyExc reps = none) :
+    (o.runStudyFixed reps).results = .ok (some (studyRows reps)) ∧
+      (o.runStudyFixed reps).history = .ok (studyHist reps) := by
+  simp [SnowObj.runStudyFixed, SnowObj.results, SnowObj.history, he]
+
+/-- the K7 repair does not change what single runs show (`runFixed` vs the K6-only `runK6`), given
+that a run that raises publishes no histories (`complete_or_raise_*`) -/
+theorem runFixed_eq_runK6_observable {S H : Type} (o : SnowObj S H) (r : RunOut S H)
+    (hr : r.exc ≠ none → r.hist = none) :
+    (o.runFixed r).results = (o.runK6 r).results ∧ (o.runFixed r).history = (o.runK6 r).history := by
+  cases he : r.exc with
+  | none => simp [SnowObj.runFixed, SnowObj.runK6, SnowObj.results, SnowObj.history, he]
+  | some e =>
+    have := hr (by rw [he]; simp)
+    simp [SnowObj.runFixed, SnowObj.runK6, SnowObj.results, SnowObj.history, he, this]
+
 /-! ### concrete runs (non-vacuity and the K6 witness) -/
 
 /-- run 1: unit constants, no solute, controlled nucleation at −8 °C, shelf at 0 K: freezes in one step -/
